@@ -24,7 +24,9 @@ PlainUses == {"call_target", "arg", "attr", "binop", "unary", "compare", "boolop
 Ctxs == {"expr", "assign", "augassign", "return", "if_test", "while_test", "for_iter", "with_ctx", "assert",
          "in_if_body", "in_for_body", "in_with_body", "in_try_body", "in_else_body", "in_while_body"}
 Binds == {"none", "assign_before", "assign_after", "assign_same_line", "tuple_before", "for_target", "with_as",
-          "annassign_before", "augassign_before", "walrus_before", "except_as", "import_in_fn", "nested_def", "global_decl"}
+          "annassign_before", "augassign_before", "walrus_before", "except_as", "import_in_fn", "nested_def", "global_decl",
+          \* the name is a PARAMETER of the enclosing function, in every syntactic kind a parameter can take
+          "param", "param_default", "param_annotated", "param_posonly", "param_kwonly", "param_kwonly_default", "param_vararg", "param_kwarg"}
 Vis == {"conftest", "same_file", "parent_conftest", "sibling_conftest", "sibling_prefix_conftest", "imported_by_conftest", "third_party", "not_a_fixture",
         "module_level_name", "imported_name", "module_function"}
 Shapes == {"no_params", "one_param", "many_params", "default_param", "annotated_param", "return_annot", "return_annot_params",
@@ -47,8 +49,10 @@ Visible(v) == v \in {"conftest", "same_file", "parent_conftest", "imported_by_co
 \* is it hidden by a module-level / imported name of the file (those are never fixtures requests)
 ModuleName(v) == v \in {"module_level_name", "imported_name", "module_function"}
 \* is the use preceded by a local binding on an EARLIER line
+IsParam(b) == b \in {"param", "param_default", "param_annotated", "param_posonly", "param_kwonly", "param_kwonly_default",
+                     "param_vararg", "param_kwarg"}
 BoundEarlier(b) == b \in {"assign_before", "tuple_before", "for_target", "with_as", "annassign_before", "augassign_before",
-                          "walrus_before", "except_as", "import_in_fn", "nested_def"}
+                          "walrus_before", "except_as", "import_in_fn", "nested_def"} \/ IsParam(b)
 
 \* verdicts: "flag" (must be flagged at its exact position), "noflag" (must not be flagged), "open" (statement silent)
 Verdict(c) ==
